@@ -18,7 +18,8 @@ def mom1(spectrum, dir, theta=90.0):
         - mcos (float): Cosine component of the 1st directional moment.
 
     """
-    dd = dir[1] - dir[0]
+    dd = abs(dir[1] - dir[0]) % 360
+    dd = min(dd, 360 - dd)
     cp = np.cos(np.radians(180 + theta - dir))
     sp = np.sin(np.radians(180 + theta - dir))
     msin = (dd * spectrum * sp).sum(axis=1)
@@ -58,7 +59,8 @@ def hs(spectrum, freq, dir=None, tail=True):
     """
     df = abs(freq[1:] - freq[:-1])
     if dir is not None and len(dir) > 1:
-        ddir = abs(dir[1] - dir[0])
+        ddir = abs(dir[1] - dir[0]) % 360
+        ddir = min(ddir, 360 - ddir)
         E = ddir * spectrum.sum(1)
     else:
         E = np.squeeze(spectrum)
